@@ -108,6 +108,11 @@ def case(draw, tier="quick"):
     if tier == "thorough":
         prof["max_bars"] = 6
     ps = ensure_edge_onsets(draw(G.part_spec(prof)))
+    # a key that comes back (A B A on three successive bar lines): every seventh score with three or more bars
+    if len(ps["measures"]) >= 3 and prof.get("key_changes", True) and draw(st.integers(0, 6)) == 0:
+        a = [draw(st.integers(-7, 7)), draw(st.sampled_from(["major", "minor", None]))]
+        b = [draw(st.integers(-7, 7).filter(lambda f: f != a[0])), draw(st.sampled_from(["major", "minor", None]))]
+        ps["keysigs"] = [[ps["measures"][0][0]] + a, [ps["measures"][1][0]] + b, [ps["measures"][2][0]] + a]
     # ---- audit: voice numbers with gaps, of two digits, starting at 0; naturals stated as alter=None --------
     vmode = draw(st.sampled_from(["same", "same", "same", "gaps", "gaps", "zero"]))
     voices = sorted(set(n["voice"] for n in ps["notes"] if n.get("voice") is not None))
